@@ -513,3 +513,104 @@ def regression_replay_for(pid: str, args: Any) -> Dict[str, Any]:
         out.append(rec)
     ok = sum(1 for r in out if r["result"] == "ok")
     return {"summary": f"{ok}/{len(out)} repaired findings are reported again on the revision before their fix", "replays": out}
+
+
+# ---------------------------------------------------------------------------------------------
+# refactor fuzzing: other behaviour-preserving rewrites must never produce a VIOLATION
+#   unparse   every module re-emitted with ast.unparse (comments gone, quotes / parentheses / line numbers changed)
+#   invert-if one `if c: A else: B` (not an elif chain) in a consulted function rewritten to `if not c: B else: A`
+# ---------------------------------------------------------------------------------------------
+def _consulted_functions(root: str, only: Optional[str]) -> List[Tuple[str, str, str]]:
+    out = set()
+    for pid, rel, q, _loc, _l0, _l1 in rename_jobs(root, only):
+        out.add((pid, rel, q))
+    return sorted(out)
+
+
+def refactor_jobs(root: str, only: Optional[str]) -> List[Tuple[str, str, str, str, int]]:
+    from .cli import CLAIMED
+
+    jobs: List[Tuple[str, str, str, str, int]] = [(pid, "unparse", "", "", 0) for pid in CLAIMED if not only or pid == only]
+    files = Project.read_files(root)
+    for pid, rel, q in _consulted_functions(root, only):
+        tree = _ast.parse(files[rel])
+        fn = _find_def(tree, q)
+        if fn is None:
+            continue
+        k = 0
+        for n in _ast.walk(fn):
+            if isinstance(n, _ast.If) and n.orelse and not (len(n.orelse) == 1 and isinstance(n.orelse[0], _ast.If)) and not any(isinstance(x, _ast.NamedExpr) for x in _ast.walk(n.test)):
+                jobs.append((pid, "invert-if", rel, q, k))
+                k += 1
+    return jobs
+
+
+def _find_def(tree: _ast.AST, q: str) -> Optional[_ast.AST]:
+    cur: Any = tree
+    for part in q.split("."):
+        nxt = None
+        for n in _ast.walk(cur) if cur is not tree else _ast.iter_child_nodes(cur):
+            if isinstance(n, (_ast.FunctionDef, _ast.AsyncFunctionDef, _ast.ClassDef)) and n.name == part and n is not cur:
+                nxt = n
+                break
+        if nxt is None:
+            return None
+        cur = nxt
+    return cur
+
+
+def _refactor_one(job: Tuple[str, Tuple[str, str, str, str, int]]) -> Dict[str, Any]:
+    root, (pid, kind, rel, q, k) = job
+    label = f"{kind} {rel}:{q}#{k}" if kind != "unparse" else "unparse all modules"
+    try:
+        files = Project.read_files(root)
+        if kind == "unparse":
+            for r_ in list(files):
+                if r_.endswith(".py"):
+                    try:
+                        files[r_] = _ast.unparse(_ast.parse(files[r_])) + "\n"
+                    except SyntaxError:
+                        pass
+        else:
+            tree = _ast.parse(files[rel])
+            fn = _find_def(tree, q)
+            if fn is None:
+                return {"property": pid, "variant": label, "result": "skipped"}
+            i = 0
+            done = False
+            for n in _ast.walk(fn):
+                if isinstance(n, _ast.If) and n.orelse and not (len(n.orelse) == 1 and isinstance(n.orelse[0], _ast.If)) and not any(isinstance(x, _ast.NamedExpr) for x in _ast.walk(n.test)):
+                    if i == k:
+                        n.test = _ast.UnaryOp(op=_ast.Not(), operand=n.test)
+                        n.body, n.orelse = n.orelse, n.body
+                        done = True
+                        break
+                    i += 1
+            if not done:
+                return {"property": pid, "variant": label, "result": "skipped"}
+            _ast.fix_missing_locations(tree)
+            files[rel] = _ast.unparse(tree) + "\n"
+        code, fired = _run(pid, Project(root, files, "overlay"))
+        return {"property": pid, "variant": label, "result": "ok" if code == 0 else ("undecided" if code == 2 else "FALSE-ALARM"), "exit": code, "fired": fired}
+    except Exception as e:  # pragma: no cover
+        return {"property": pid, "variant": label, "result": "error", "why": f"{type(e).__name__}: {e}"}
+
+
+def refactor_main(args: Any) -> int:
+    t0 = time.time()
+    jobs = refactor_jobs(args.repo, args.only.upper() if args.only else None)
+    with ProcessPoolExecutor(max_workers=max(1, min(args.jobs, 16))) as ex:
+        res = list(ex.map(_refactor_one, [(args.repo, j) for j in jobs], chunksize=2))
+    bad = [r for r in res if r["result"] == "FALSE-ALARM"]
+    und = [r for r in res if r["result"] in ("undecided", "error")]
+    for r in bad:
+        print(f"FALSE-ALARM {r['property']} {r['variant']}: fired {r['fired']}")
+    for r in und:
+        print(f"undecided   {r['property']} {r['variant']} {r.get('why', '')}")
+    print(f"refactorfuzz: {len(res)} rewrites, ok {sum(1 for r in res if r['result'] == 'ok')}, undecided {len(und)}, false alarms {len(bad)}, skipped {sum(1 for r in res if r['result'] == 'skipped')} in {round(time.time() - t0, 1)}s")
+    out = os.path.join(os.path.dirname(os.path.dirname(os.path.abspath(__file__))), "selfcheck", "refactorfuzz.json")
+    if not getattr(args, "no_write", False):
+        os.makedirs(os.path.dirname(out), exist_ok=True)
+        with open(out, "w") as f:
+            json.dump({"rewrites": len(res), "false_alarms": bad, "undecided": und}, f, indent=1)
+    return 0 if not bad else 2
